@@ -134,5 +134,79 @@ example : ∃ m, readMesh toyCoding defaultReader (refEncode toyCoding exClaim) 
       · exact Or.inr rfl)
     (by decide) (by decide)⟩
 
+/-! ### any order / interleaving: the claim stage CHECKED on the header (certificate)
+
+The header-level characterisation for interleaved or reordered group members (`ply_spec_claim_full`) is NOT proved.  What IS
+proved for every order: a decidable check on the header alone (no data) that RUNS the claim function — every built reader is
+located at the header positions of its names with one type, and the built keys are `meaningKeys f` — discharges the
+`Located` hypotheses; so for any concrete header (`z q x y`, `red x green y blue z`, …) the closed theorems follow by
+`decide`. -/
+
+/-- decidable, header only; runs `buildAll` -/
+def specClaimCheck (f : SpecFile α) : Bool :=
+  (specClaimed f).all (fun p => locatedNamedB (specProps f) p.1 p.2) &&
+  (specClaimed f).map (fun p => (p.1.names.length, p.1.attr)) == meaningKeys f
+
+theorem ply_spec_claim_located_checked (f : SpecFile α) (hc : specClaimCheck f = true) :
+    (∀ p ∈ specClaimed f, Located (f.vprops.map (·.ty)) p.1 p.2) ∧
+      (specClaimed f).map (fun p => (p.1.names.length, p.1.attr)) = meaningKeys f := by
+  simp only [specClaimCheck, Bool.and_eq_true, List.all_eq_true, beq_iff_eq] at hc
+  refine ⟨?_, hc.2⟩
+  intro p hp
+  have hty : f.vprops.map (·.ty) = (specProps f).map (·.2) := by simp [specProps, Function.comp_def]
+  rw [hty]
+  exact (locatedNamedB_sound (specProps f) p.1 p.2 (hc.1 p hp)).loc
+
+/-- POINT-CLOUD FILES FROM FILE BYTES, any property order / interleaving, closed by the header check -/
+theorem ply_reads_spec_pointcloud_bytes_checked (c : Coding α) (f : SpecFile α) (hok : SpecHeaderOK f)
+    (hf : f.format ≠ .ascii) (hface : f.face = none)
+    (htyped : ∀ r ∈ f.verts, r.map Datum.ty = f.vprops.map (·.ty)) (hc : specClaimCheck f = true) :
+    readMesh c defaultReader (refEncode c f)
+      = .ok (applyColumns ⟨.point, (List.range f.verts.length).map Int.ofNat, [], none⟩ ((specClaimed f).map (·.1))
+          (f.verts.map (rowOf c (specClaimed f)))) :=
+  ply_reads_spec_pointcloud_bytes c f hok hf hface htyped (specClaimed f)
+    (by simp [specClaimed, List.map_map, Function.comp_def]) (ply_spec_claim_located_checked f hc).1
+
+/-- MESH FILES FROM FILE BYTES, any property order / interleaving, closed by the header check -/
+theorem ply_reads_spec_mesh_bytes_checked (c : Coding α) (f : SpecFile α) (fe : SpecFaceElem α)
+    (hok : SpecHeaderOK f) (hf : f.format ≠ .ascii) (hm : SpecMeshOK f fe) (hsize : ∀ fc ∈ fe.faces, TriOrQuad fc)
+    (htyped : ∀ r ∈ f.verts, r.map Datum.ty = f.vprops.map (·.ty)) (hc : specClaimCheck f = true) :
+    readMesh c defaultReader (refEncode c f)
+      = .ok (applyColumns ⟨.triangle, fanIdx fe.faces, [], none⟩ ((specClaimed f).map (·.1))
+          (f.verts.map (rowOf c (specClaimed f)))) :=
+  ply_reads_spec_mesh_bytes c f fe hok hf hm hsize htyped (specClaimed f)
+    (by simp [specClaimed, List.map_map, Function.comp_def]) (ply_spec_claim_located_checked f hc).1
+
+/-- `z q x y` (reordered + interleaved, `exMesh`) and `red x green y blue z` pass the check -/
+example : specClaimCheck exMesh = true := by decide
+
+def exInterleaved : SpecFile Nat :=
+  { exClaim with
+    vprops := [⟨nm "red", .uchar, false⟩, ⟨nm "x", .float, false⟩, ⟨nm "green", .uchar, true⟩, ⟨nm "y", .float, true⟩,
+      ⟨nm "blue", .uchar, false⟩, ⟨nm "z", .float, false⟩],
+    verts := [[.u8 255, .f32 1, .u8 0, .f32 2, .u8 51, .f32 3], [.u8 1, .f32 4, .u8 2, .f32 5, .u8 3, .f32 6],
+      [.u8 4, .f32 7, .u8 5, .f32 8, .u8 6, .f32 9], [.u8 7, .f32 10, .u8 8, .f32 11, .u8 9, .f32 12]] }
+
+example : specClaimCheck exInterleaved = true := by decide
+
+example : meaningKeys exInterleaved = [(3, positionAttr), (3, colorAttr)] := by decide
+
+example : ∃ m, readMesh toyCoding defaultReader (refEncode toyCoding exInterleaved) = .ok m :=
+  ⟨_, ply_reads_spec_mesh_bytes_checked toyCoding exInterleaved exMesh.exFaces
+    ⟨by decide, by intro i hi; simp [exInterleaved, exClaim] at hi, by decide,
+      by intro fe h; simp only [exInterleaved, exClaim, Option.some.injEq] at h; subst h; decide⟩
+    (by decide) ⟨rfl, rfl, by decide, by decide, exMesh_ok.enc⟩
+    (by
+      intro fc hfc
+      simp only [exMesh.exFaces, List.mem_cons, List.not_mem_nil, or_false] at hfc
+      rcases hfc with rfl | rfl
+      · exact Or.inl rfl
+      · exact Or.inr rfl)
+    (by decide) (by decide)⟩
+
+/-- … while the mixed-type group of the known finding does NOT: the check cannot be dropped -/
+example : specClaimCheck ({ exInterleaved with
+    vprops := [⟨nm "x", .float, false⟩, ⟨nm "y", .float, false⟩, ⟨nm "z", .double, false⟩] } : SpecFile Nat) = false := by decide
+
 end C08
 end PolyVerif
